@@ -36,6 +36,7 @@ def requests():
         Request(IF, fn=["stir::(PatientPosition|ImagingModality|TimeFrameDefinitions|ExamInfo|Radionuclide)::.*"], files=["/repo/src/include/stir/.*"]),
         Request("src/buildblock/PatientPosition.cxx", fn=["stir::PatientPosition::.*"]),
         Request("src/buildblock/ExamInfo.cxx", fn=["stir::ExamInfo::.*"]),
+        Request(IF, fn=["stir::write_basic_interfile_.*header", "stir::write_interfile_.*"], files=["/repo/src/IO/interfile.cxx"]),
     ]
 
 
@@ -664,6 +665,71 @@ def _contains(tree, node):
     return any(x is node for x in tree.walk())
 
 
+STICKY_CALLS = ("setprecision", "setiosflags", "resetiosflags", "setbase", "setfill")
+STICKY_FLAGS = ("fixed", "scientific", "hexfloat", "defaultfloat", "hex", "oct", "dec", "showpoint", "noshowpoint", "showpos", "uppercase", "boolalpha", "left", "right", "internal")
+STICKY_MEMBERS = ("precision", "setf", "unsetf", "flags", "fill", "imbue", "copyfmt")
+
+
+def sticky_format_changes(f):
+    """nodes in f that change the persistent formatting state of an output stream"""
+    out = []
+    for m in f.walk():
+        if m.k == "CXXOperatorCallExpr" and m.op == "<<" and len(m.c) >= 2:
+            r = m.c[-1].strip()
+            if r.is_call() and (r.callee or "").split("::")[-1] in STICKY_CALLS and (r.callee or "").startswith("std::"):
+                out.append((m, "std::" + r.callee.split("::")[-1]))
+            elif r.k == "DeclRefExpr" and (r.get("qn") or r.get("n") or "").split("::")[-1] in STICKY_FLAGS and "ios_base" in (r.type or ""):
+                out.append((m, "std::" + (r.get("qn") or r.get("n")).split("::")[-1]))
+        elif m.k == "CXXMemberCallExpr" and (m.callee or "").split("::")[-1] in STICKY_MEMBERS and re.search(r"std::(basic_)?(ios|ostream|ofstream|fstream|ios_base)", m.callee or "") and m.call_args():
+            out.append((m, (m.callee or "").split("::")[-1] + "()"))
+    return out
+
+
+def rule_h_header_stream_format_unchanged(ctx, wfns, control_fns):
+    """All numbers of a header are written with the stream's default formatting (6 significant digits, general notation) - the reader and
+    the quantisation clauses above count on that.  A helper that switches the shared header stream to fixed notation or another precision
+    changes how EVERYTHING written afterwards looks (scale factors of 3e-05 become 0.000).  Hence: the header writer and its helpers
+    leave the formatting state of the stream they are handed as it was - no sticky manipulator or formatting member call on it, unless
+    the previous state is put back (flags()/precision()/copyfmt() of a saved value) on every path to the return."""
+    from engine.cfg import CFG as _CFG
+
+    n = 0
+    seen = set()
+    for f in wfns:
+        if f.body is None or (f.file, f.line) in seen or not f.short.startswith(("write_basic_interfile", "write_interfile_")):
+            continue
+        seen.add((f.file, f.line))
+        ch = sticky_format_changes(f)
+        # changes on a stream that is local to the function and not the header (an ostringstream used to format one value) are harmless
+        shared = []
+        for m, what in ch:
+            root = m
+            while root.k == "CXXOperatorCallExpr" and root.op == "<<" and root.c:
+                root = root.c[0].strip() if len(root.c) == 2 else root.c[-2].strip()
+            if root.k == "CXXMemberCallExpr" and root.c:
+                root = root.c[0].strip()
+            t = root.type or ""
+            if "stringstream" in t:
+                continue
+            shared.append((m, what))
+        ok = True
+        det = "no persistent formatting change on the header stream"
+        if shared:
+            cfg = _CFG(f)
+            restores = {m.i for m, what in shared if what in ("flags()", "precision()", "copyfmt()")}
+            first = [m for m, what in shared if m.i not in restores and m.i in cfg.pos]
+            ok = bool(restores) and bool(first) and cfg.must_pass_before_exit(first, lambda x: x.i in restores) is None
+            det = "formatting is changed and put back before returning" if ok else "the header stream is switched to `%s` and left that way: every number written to the header afterwards (scale factors, offsets, sizes) is formatted differently from what the reader and the quantisation bound assume" % ", ".join(sorted({w for _m, w in shared}))
+        ctx.ob("C10.h-header-stream-format-unchanged", f.qn + "(" + f.sig[:30] + ")", "formatting-state", ok, (shared[0][0] if shared else f).where(), det)
+        n += 1
+    # positive control: the matcher must see the manipulators ExamInfo::parameter_info streams into its own string stream
+    ctrl = [c for g in control_fns if g.body is not None and g.short == "parameter_info" for c in sticky_format_changes(g)]
+    if not ctrl:
+        ctx.fail_broken("control for C10.h failed: no sticky manipulator recognised in ExamInfo::parameter_info (the matcher is blind)")
+    ctx.stats["sticky_manipulator_control_hits"] = len(ctrl)
+    return n
+
+
 def run(ctx):
     ctx.explanation = (
         "Decides: (a) every key that the Interfile image header writer (and its helpers for exam information) emits is registered or "
@@ -702,6 +768,9 @@ def run(ctx):
     ctx.require_count("C10.f-independent-keys", 4)
     rule_g_omitted_only_at_reader_default(ctx, ifns, hfns)
     ctx.require_count("C10.g-omitted-only-at-reader-default", 3)
+    if us[7] is not None:
+        rule_h_header_stream_format_unchanged(ctx, fl(us[7]), fl(us[6]))
+        ctx.require_count("C10.h-header-stream-format-unchanged", 8)
     ctx.require_count("C10.a-header-keys-agree", 25)
     ctx.require_count("C10.b-short-file-is-error", 2)
     ctx.require_count("C10.c-number-types-exhaustive", 3)
